@@ -21,7 +21,7 @@ EXPLANATION = (
     "together with the one precondition of the voxel arithmetic that is visible in the code: periodic positions are wrapped into the primary cell before they are hashed, sorted and compared with the box edges.")
 NOT_DECIDED = ["the voxel range arithmetic of Voxels::getNeighbors (which voxels / x-ranges are visited)", "set equality with compute_distances near the cutoff", "triclinic cells whose minimum image needs the 27-image search (compute_neighbors wraps once)"]
 ASSUMPTIONS = ["unit cell vectors are in the lower-triangular form mdtraj produces"]
-FLOORS = {"C10-R1": 12, "C10-R2": 7, "C10-R3": 1, "C10-R4": 12, "C10-R5": 4}
+FLOORS = {"C10-R1": 3, "C10-R2": 7, "C10-R3": 1, "C10-R4": 12, "C10-R5": 4}
 
 NB = "mdtraj/geometry/src/neighbors.cpp"
 NL = "mdtraj/geometry/src/neighborlist.cpp"
@@ -65,69 +65,207 @@ def _iter_loop(n):
     return (m.group(1) if m else None, m.group(2) if m else None, ok, (ti, tc, tinc))
 
 
+def _container_loop(n):
+    """(loop variable, container, atom-variable initialiser pattern) for a loop over a whole std::vector: iterator form
+    `for (it = X.begin(); it != X.end(); ++it)` or index form `for (k = 0; k < X.size() [or a local holding it]; ++k)`; else None"""
+    v, c, ok, _ = _iter_loop(n)
+    if ok and c:
+        return v, c, "iter"
+    inner = n.get("inner", [])
+    if len(inner) < 5 or not inner[0] or not inner[2] or not inner[3]:
+        return None
+    init, cond, inc = inner[0], inner[2], inner[3]
+    if init["kind"] == "DeclStmt":
+        d = [k for k in C.kids(init) if k["kind"] == "VarDecl"]
+        if len(d) != 1 or not C.kids(d[0]) or _n(C.text(C.kids(d[0])[-1])).strip("()") != "0":
+            return None
+        var = d[0].get("name")
+    else:
+        m = re.match(r"^\(?(\w+)=0\)?$", _n(C.text(init)))
+        if not m:
+            return None
+        var = m.group(1)
+    m = re.match(r"^\(%s<(.+)\)$" % re.escape(var), _n(C.text(cond)))
+    if not m or _n(C.text(inc)).strip("()") not in ("++" + var, var + "++", var + "++0"):
+        return None
+    return var, m.group(1), "index"
+
+
 def r1(ctx, cf):
+    """_compute_neighbors by value numbering (sa/symval.py): for a generic haystack atom i and query atom j the statements of the two loop
+    bodies are evaluated on every path; the difference vector, its wrap and the squared distance are compared with the definition built from
+    the parameters (coordinates X, box B, cutoff), so local names, pointer walks and iterator / index loops make no difference."""
+    from ..symval import SymExec, State, Ptr, Vec, Unsupported, _canon
     fn = cf.function(NB, "_compute_neighbors")
     ctx.analysed_files.add(NB)
     ctx.analysed_functions.add(NB + ":_compute_neighbors")
-    loops = [n for n in C.walk(fn) if n["kind"] == "ForStmt" and _iter_loop(n)[1] in ("haystack_indices", "query_indices")]
-    if len(loops) != 2:
-        raise AnalysisError("_compute_neighbors: expected one loop over haystack_indices with one over query_indices inside, found %d iterator loops" % len(loops))
-    outer, inner = loops
-    ov, oc, ook, ot = _iter_loop(outer)
-    iv, ic, iok, it = _iter_loop(inner)
-    ctx.decide(ook and oc == "haystack_indices", "C10-R1", C.line(outer), NB, "_compute_neighbors", "outer loop: haystack_indices from begin to end", "", "outer loop is %s" % (ot,))
-    ctx.decide(iok and ic == "query_indices", "C10-R1", C.line(inner), NB, "_compute_neighbors", "inner loop: query_indices", "", "inner loop is %s" % (it,))
-    decl = {v.get("name"): _n(C.text(C.kids(v)[-1])) for v in C.walk(fn) if v["kind"] == "VarDecl" and C.kids(v) and v.get("name") in ("i", "j", "cutoff2", "dist2", "delta", "pos1", "pos2", "periodic", "triclinic")}
-    ctx.decide(decl.get("i") == "(*%s)" % ov and decl.get("j") == "(*%s)" % iv, "C10-R1", C.line(outer), NB, "_compute_neighbors", "i = haystack atom, j = query atom", "", "loop atoms are %s" % {k: decl.get(k) for k in "ij"})
-    ctx.decide(decl.get("pos1", "").startswith("fvec4(frame_xyz[(3*i)]") and decl.get("pos2", "").startswith("fvec4(frame_xyz[(3*j)]") and decl.get("delta") == "(pos1-pos2)", "C10-R1", C.line(inner), NB,
-               "_compute_neighbors", "delta = xyz[i] - xyz[j]", "", "positions / difference are %s" % {k: decl.get(k) for k in ("pos1", "pos2", "delta")})
-    ctx.decide(decl.get("cutoff2") == "(cutoff*cutoff)" and decl.get("dist2") == "dot3(delta,delta)", "C10-R1", C.line(fn), NB, "_compute_neighbors", "dist2 = |delta|^2 against cutoff^2", "",
-               "test quantities are %s" % {k: decl.get(k) for k in ("cutoff2", "dist2")})
-    g = C.guards(fn)
-    pb = [n for n in C.walk(fn) if n["kind"] == "CXXMemberCallExpr" and C.callee_name(n) == "push_back"]
-    if len(pb) != 1:
-        raise AnalysisError("_compute_neighbors: expected one push_back")
-    facts = sorted(set(g.get(pb[0]["id"], [])))
-    ctx.decide(facts == sorted({("(i==j)", False), ("(dist2<cutoff2)", True)}), "C10-R1", C.line(pb[0]), NB, "_compute_neighbors", "recorded iff i != j and dist2 < cutoff2", str(facts),
-               "a haystack atom is recorded under %s" % facts)
-    ctx.decide(_n(C.text(pb[0])) == "push_back(i)" or _n(C.text(C.call_args(pb[0])[0])) == "i", "C10-R1", C.line(pb[0]), NB, "_compute_neighbors", "the haystack atom is what is recorded", "", "recorded value is %s" % C.text(pb[0]))
-    # push_back followed by break in the same block
-    blk = [b for b in C.walk(fn) if b["kind"] == "CompoundStmt" and any(C.strip(k) is pb[0] or k is pb[0] or any(x is pb[0] for x in C.walk(k)) for k in C.kids(b)) and
-           not any(x["kind"] == "ForStmt" for k in C.kids(b) for x in C.walk(k))]
-    ok = False
-    if blk:
-        ks = C.kids(blk[-1])
-        idx = [i for i, k in enumerate(ks) if any(x is pb[0] for x in C.walk(k))]
-        ok = bool(idx) and idx[0] + 1 < len(ks) and ks[idx[0] + 1]["kind"] == "BreakStmt"
-    ctx.decide(ok, "C10-R1", C.line(pb[0]), NB, "_compute_neighbors", "push_back is followed by break (an atom is reported once)", "",
-               "the search for a haystack atom continues after it has been recorded: it is reported once per query atom within the cutoff")
-    # wraps
-    wr = [_n(C.text(n)) for n in C.walk(inner) if n["kind"] in ("CXXOperatorCallExpr", "CompoundAssignOperator") and _n(C.text(n)).startswith("(delta-=")]
-    want = ["(delta-=(box_vec3*roundf((delta[2]*recip_box_size[2]))))", "(delta-=(box_vec2*roundf((delta[1]*recip_box_size[1]))))", "(delta-=(box_vec1*roundf((delta[0]*recip_box_size[0]))))",
-            "(delta-=(round((delta*inv_box_size))*box_size))"]
-    ctx.decide(wr == want, "C10-R1", C.line(inner), NB, "_compute_neighbors", "wrap on the difference: c, b, a (triclinic) / component-wise (orthorhombic)", "", "wrap statements are %s" % wr)
-    wg = {}
-    for n in C.walk(inner):
-        if n["kind"] in ("CXXOperatorCallExpr", "CompoundAssignOperator") and _n(C.text(n)).startswith("(delta-="):
-            wg[_n(C.text(n))[:22]] = sorted(set(f for f in g.get(n["id"], []) if f[0] in ("triclinic", "periodic")))
-    ok = all(v == [("triclinic", True)] for k, v in wg.items() if "box_vec" in k) and all(v == [("periodic", True), ("triclinic", False)] for k, v in wg.items() if "round((" in k)
-    ctx.decide(ok and len(wg) == 4, "C10-R1", C.line(inner), NB, "_compute_neighbors", "triclinic wrap iff triclinic, rectangular wrap iff periodic and not triclinic", "", "wrap guards are %s" % wg)
-    red = [_n(C.text(n)) for n in C.walk(fn) if n["kind"] in ("CXXOperatorCallExpr", "CompoundAssignOperator") and _n(C.text(n)).startswith(("(box_vec3-=", "(box_vec2-="))]
-    want = ["(box_vec3-=(box_vec2*roundf((box_vec3[1]/box_vec2[1]))))", "(box_vec3-=(box_vec1*roundf((box_vec3[0]/box_vec1[0]))))", "(box_vec2-=(box_vec1*roundf((box_vec2[0]/box_vec1[0]))))"]
-    ctx.decide(red == want, "C10-R1", C.line(fn), NB, "_compute_neighbors", "box reduced c-=b, c-=a, b-=a", "", "box reduction is %s" % red)
+    body = C.kids(C.body_of(fn))
+    # sizes held in locals: n = X.size()
+    sizes = {}
+    for v in C.walk(fn):
+        if v["kind"] == "VarDecl" and C.kids(v):
+            m = re.match(r"^\(?(\w+)\.size\(\)\)?$", _n(C.text(C.kids(v)[-1])))
+            if m:
+                sizes[v.get("name")] = m.group(1)
+    found = []
+    for n in C.walk(fn):
+        if n["kind"] == "ForStmt":
+            cl = _container_loop(n)
+            if cl:
+                var, cont, form = cl
+                m = re.match(r"^(\w+)\.size\(\)$", cont)
+                cont = m.group(1) if m else sizes.get(cont, cont)
+                if cont in ("haystack_indices", "query_indices"):
+                    found.append((n, var, cont, form))
+    outer = [f for f in found if f[2] == "haystack_indices"]
+    inner = [f for f in found if f[2] == "query_indices"]
+    ok = len(outer) == 1 and len(inner) == 1 and any(x is inner[0][0] for x in C.walk(outer[0][0]))
+    ctx.decide(ok, "C10-R1", C.line(outer[0][0]) if outer else C.line(fn), NB, "_compute_neighbors", "outer loop over all of haystack_indices, inner loop over all of query_indices", "",
+               "loops over whole containers found: %s" % [(f[2], f[3]) for f in found])
+    if not ok:
+        return
+    (ol, ovar, _, _), (il, ivar, _, _) = outer[0], inner[0]
+    obody = [x for x in ol["inner"] if isinstance(x, dict) and x.get("kind") == "CompoundStmt"][0]
+    ibody = [x for x in il["inner"] if isinstance(x, dict) and x.get("kind") == "CompoundStmt"][0]
+
+    def atom_decl(stmts, loopvar, cont):
+        """the VarDecl that reads the current element: `*it` or `cont[k]`"""
+        for s_ in stmts:
+            if s_["kind"] == "DeclStmt":
+                for v in C.kids(s_):
+                    if v["kind"] == "VarDecl" and C.kids(v):
+                        t = _n(C.text(C.kids(v)[-1])).strip("()")
+                        if t in ("*" + loopvar, "%s[%s]" % (cont, loopvar)):
+                            return s_, v.get("name")
+        return None, None
+    od, iname = atom_decl(C.kids(obody), ovar, "haystack_indices")
+    idn, jname = atom_decl(C.kids(ibody), ivar, "query_indices")
+    if od is None or idn is None:
+        ctx.violated("C10-R1", C.line(ol), NB, "_compute_neighbors", "i = current haystack atom, j = current query atom", "the loops do not read the current element of their container into a local (`*it` / `container[k]`)")
+        return
+
+    def sym(n_):
+        return Rat(Poly.var(n_))
+    pushed = []
+
+    def cm(name, args, n_, st_, ex_):
+        if name == "push_back":
+            pushed.append((len(st_.conds), tuple(st_.cvals), list(args)))
+            return Rat(Poly.const(0))
+        return None
+    i, j = sym("i"), sym("j")
+    results = {}
+    for mode in ("box", "nobox"):
+        ex = SymExec(cf, NB, call_model=cm, max_unroll=16)
+        st = State()
+        st.env["frame_xyz"] = Ptr("X", 0)
+        st.env["box_matrix"] = Ptr("B", 0)
+        st.env["cutoff"] = sym("cutoff")
+        st.env["n_atoms"] = sym("n_atoms")
+        try:
+            outs = [st]
+            for stmt in body:
+                if stmt is ol or any(x is ol for x in C.walk(stmt)):
+                    break
+                nxt = []
+                for o in outs:
+                    nxt.extend(ex.run([stmt], o))
+                outs = nxt
+                for o in outs:
+                    for k_, v_ in list(o.env.items()):
+                        # `box_matrix != NULL`: decided per mode
+                        if isinstance(v_, Rat) and v_.const_value() is None and any("NULL" in x for x in v_.vars()) and len(v_.vars()) == 1 and v_ == Rat(Poly.var(list(v_.vars())[0])):
+                            o.env[k_] = Rat(Poly.const(1 if mode == "box" else 0))
+            finals = []
+            for o in outs:
+                o.env[iname] = i
+                for o2 in ex.run([s_ for s_ in C.kids(obody) if s_ is not od and s_ is not il], o):
+                    o2.env[jname] = j
+                    n0 = len(pushed)
+                    for o3 in ex.run([s_ for s_ in C.kids(ibody) if s_ is not idn], o2):
+                        finals.append(o3)
+            results[mode] = (ex, finals)
+        except Unsupported as e:
+            ctx.undecided("C10-R1", C.line(fn), NB, "_compute_neighbors", "loop bodies", "not evaluable: %s" % e)
+            return
+    # ---- the definition, from the parameters
+    X = lambda a, k: sym("X[%s]" % _canon(3 * a + k))     # noqa: E731
+    B = [sym("B[%d]" % k) for k in range(9)]
+
+    def spec(ex, kind):
+        rnd = lambda v: ex.opaque_call("round", [v])      # noqa: E731
+        d = [X(i, k) - X(j, k) for k in range(3)]
+        if kind == "tri":
+            b1, b2, b3 = B[0:3], B[3:6], B[6:9]
+            s_ = rnd(b3[1] / b2[1])
+            b3 = [b3[k] - b2[k] * s_ for k in range(3)]
+            s_ = rnd(b3[0] / b1[0])
+            b3 = [b3[k] - b1[k] * s_ for k in range(3)]
+            s_ = rnd(b2[0] / b1[0])
+            b2 = [b2[k] - b1[k] * s_ for k in range(3)]
+            R = [1 / B[0], 1 / B[4], 1 / B[8]]
+            for (bv, ax) in ((b3, 2), (b2, 1), (b1, 0)):
+                s_ = rnd(d[ax] * R[ax])
+                d = [d[k] - bv[k] * s_ for k in range(3)]
+        elif kind == "rect":
+            d = [d[k] - rnd(d[k] * (1 / B[4 * k])) * B[4 * k] for k in range(3)]
+        return d, d[0] * d[0] + d[1] * d[1] + d[2] * d[2]
+
+    def last_cmp(cv):
+        """(left, right) of the final `<` test of a path, as canonical strings"""
+        if not cv:
+            return None
+        t = str(cv[-1][0])
+        m = re.match(r"^\((.*)<([^<]*)\)$", t)
+        return (m.group(1), m.group(2)) if m else None
+    problems = []
+    seen_kinds = set()
+    for mode, (ex, finals) in results.items():
+        for o in finals:
+            cv = [(str(c), p_) for c, p_ in o.cvals]
+            same = [p_ for c, p_ in cv if c in ("(i==j)", "(j==i)")] + [not p_ for c, p_ in cv if c in ("(i!=j)", "(j!=i)")]
+            if not same:
+                problems.append("a path of the inner body does not test i == j first (%s)" % [c for c, _ in cv][:2])
+                continue
+            if same[0]:
+                if o.loopctl != "continue" and not o.done:
+                    problems.append("for i == j the body does not move on to the next query atom")
+                continue
+            flags = [(c, p_) for c, p_ in cv if "B[" in c and "<" not in c.split("B[")[0][-3:] and not re.match(r"^\(.*<.*\)$", c)]
+            kind = "plain" if mode == "nobox" else ("tri" if any(p_ for c, p_ in flags) else "rect")
+            seen_kinds.add(kind)
+            want_d, want_d2 = spec(ex, kind)
+            lc = last_cmp(o.cvals)
+            want_cut = _canon(sym("cutoff") * sym("cutoff"))
+            if lc is None or lc[1] != want_cut or lc[0] != _canon(want_d2):
+                problems.append("%s cell: the quantity compared with cutoff^2 is not |x_i - x_j%s|^2 (%s)" % (
+                    {"plain": "no", "rect": "rectangular", "tri": "triclinic"}[kind], "" if kind == "plain" else " wrapped", (lc[0][:80] + " < " + lc[1][:30]) if lc else "no `<` test"))
+                continue
+            within = o.cvals[-1][1]
+            rec = [p_ for p_ in pushed if tuple(p_[1]) == tuple(o.cvals)]
+            if within:
+                if not rec or any(len(r_[2]) != 1 or r_[2][0] != i for r_ in rec):
+                    problems.append("%s cell: within the cutoff the haystack atom i is not what is recorded (%s)" % (kind, [r_[2] for r_ in rec]))
+                if o.loopctl != "break":
+                    problems.append("%s cell: the search does not stop after the atom was recorded (it would be reported once per query atom in range)" % kind)
+            elif rec:
+                problems.append("%s cell: an atom outside the cutoff is recorded" % kind)
+    if seen_kinds != {"plain", "rect", "tri"}:
+        problems.append("paths found for %s (expected plain, rectangular and triclinic)" % sorted(seen_kinds))
+    ctx.decide(not problems, "C10-R1", C.line(il), NB, "_compute_neighbors",
+               "per pair: skip i == j; delta = x_i - x_j, wrapped c, b, a with the reduced box (triclinic) / component-wise (rectangular) / not at all (no box); i recorded once iff |delta|^2 < cutoff^2", "",
+               "; ".join(problems[:3]))
+    # ---- the flags
+    decl = {v.get("name"): _n(C.text(C.kids(v)[-1])) for v in C.walk(fn) if v["kind"] == "VarDecl" and C.kids(v) and v.get("name") in ("periodic", "triclinic")}
     tri = decl.get("triclinic", "")
     flat = tri.replace("(", "").replace(")", "")
     if flat.startswith("periodic&&"):
         idx = set(int(k) for k in re.findall(r"box_matrix\[(\d)\]!=0", flat))
         how = tri
     else:
-        idx, how = _triclinic_by_paths(cf, fn, outer)
-    ctx.decide(idx == {1, 2, 3, 5, 6, 7} and decl.get("periodic") == "(box_matrix!=NULL)", "C10-R1", C.line(fn), NB, "_compute_neighbors", "periodic iff a box is given; triclinic iff any off-diagonal entry is non-zero", "",
-               "the triclinic flag looks at box entries %s (off-diagonal entries are 1, 2, 3, 5, 6, 7): a cell skewed only in an entry that is not examined is wrapped as rectangular; periodic = %s; %s" % (sorted(idx) if idx is not None else None, decl.get("periodic"), how[:160]))
-    rv = [v for v in C.walk(fn) if v["kind"] == "VarDecl" and v.get("name") == "recip_box_size"]
-    asg = [_n(C.text(n)) for n in C.walk(fn) if n["kind"] == "BinaryOperator" and n.get("opcode") == "=" and _n(C.text(C.kids(n)[0])).startswith("recip_box_size[")]
-    ctx.decide(asg == ["(recip_box_size[0]=(1.0/box_matrix[0]))", "(recip_box_size[1]=(1.0/box_matrix[4]))", "(recip_box_size[2]=(1.0/box_matrix[8]))"], "C10-R1", C.line(fn), NB, "_compute_neighbors",
-               "reciprocal of the box diagonal", "", "reciprocal box sizes are %s" % asg)
+        idx, how = _triclinic_by_paths(cf, fn, ol)
+    ctx.decide(idx == {1, 2, 3, 5, 6, 7}, "C10-R1", C.line(fn), NB, "_compute_neighbors", "triclinic iff any off-diagonal entry of the box is non-zero", "",
+               "the triclinic flag looks at box entries %s (off-diagonal entries are 1, 2, 3, 5, 6, 7): a cell skewed only in an entry that is not examined is wrapped as rectangular; %s" % (sorted(idx) if idx is not None else None, how[:160]))
 
 
 def r2(ctx, cf):
